@@ -220,7 +220,6 @@ pub enum JClass {
 }
 
 #[derive(Deserialize, Clone, Debug, PartialEq, Eq)]
-#[serde(deny_unknown_fields)]
 pub struct JAsk {
     pub id: String,
     pub owner: String,
@@ -232,7 +231,6 @@ pub struct JAsk {
 }
 
 #[derive(Deserialize, Clone, Debug, PartialEq, Eq)]
-#[serde(deny_unknown_fields)]
 pub struct JBid {
     pub base: JCoin,
     pub accumulated_base: String,
@@ -252,7 +250,6 @@ pub struct JFee {
 }
 
 #[derive(Deserialize, Clone, Debug, PartialEq, Eq)]
-#[serde(deny_unknown_fields)]
 pub struct JInfo {
     pub name: String,
     pub bind_name: String,
@@ -284,7 +281,6 @@ impl JInfo {
 }
 
 #[derive(Deserialize, Clone, Debug, PartialEq, Eq)]
-#[serde(deny_unknown_fields)]
 pub struct JVersion {
     pub definition: String,
     pub version: String,
